@@ -308,7 +308,11 @@ class Report:
 
     def fail(self, clause: str, trigger: str, case, impl=None, detail=""):
         """The specification is false on the implementation's output for `case`."""
-        if len(self.failures) < 200:
+        # cap per (clause, trigger) so that many reproductions of one known finding cannot hide a new failure
+        key = (clause, trigger)
+        self._fail_counts = getattr(self, "_fail_counts", {})
+        self._fail_counts[key] = self._fail_counts.get(key, 0) + 1
+        if self._fail_counts[key] <= 20 and len(self.failures) < 2000:
             self.failures.append({"clause": clause, "trigger": trigger, "case": case, "impl": impl, "detail": detail})
 
 
